@@ -203,3 +203,54 @@ Proof.
   - repeat (constructor; cbn [fst]); reflexivity.
   - cbn. repeat split; repeat constructor.
 Qed.
+
+(* ---------- sampling: components are drawn left to right from ONE stream, each from where the previous stopped ---------- *)
+Section Sampling.
+Variable acosF : F -> F.
+Variable fuel : nat.
+
+Inductive comp_smp : list (space * F) -> list N -> list st -> list N -> Prop :=
+| sm_nil : forall us, comp_smp [] us [] us
+| sm_cons : forall s w subs us x mid xs rest,
+    sample acosF fuel s us = (Some (Ok x), mid) -> comp_smp subs mid xs rest ->
+    comp_smp ((s, w) :: subs) us (x :: xs) rest.
+
+Theorem sample_CS_n : forall subs us xs rest, comp_smp subs us xs rest ->
+  sample acosF fuel (CS subs) us = (Some (Ok (VC xs)), rest).
+Proof.
+  intros subs us xs rest H. cbn [sample].
+  match goal with |- match ?g subs us with _ => _ end = _ => assert (E : g subs us = (Some (Ok xs), rest)) end.
+  { induction H as [us|s w subs us x mid xs rest Hx _ IH]; [reflexivity|]. rewrite Hx, IH. reflexivity. }
+  rewrite E. reflexivity.
+Qed.
+
+Lemma sample_CS_inv : forall subs us r rest, sample acosF fuel (CS subs) us = (Some (Ok r), rest) ->
+  exists xs, r = VC xs /\ comp_smp subs us xs rest.
+Proof.
+  intros subs us r rest. cbn [sample].
+  match goal with |- match ?g subs us with _ => _ end = _ -> _ =>
+    assert (E : forall subs us xs rest, g subs us = (Some (Ok xs), rest) -> comp_smp subs us xs rest) end.
+  { clear subs us r rest. induction subs as [|[s w] subs IH]; intros us xs rest H.
+    - inversion H; subst. constructor.
+    - destruct (sample acosF fuel s us) as [[[x| |e]|] mid] eqn:Es; try discriminate.
+      match type of H with match ?t with _ => _ end = _ => destruct t as [[[xs0| |e]|] rest0] eqn:Eg; try discriminate end.
+      inversion H; subst. econstructor; [exact Es|apply IH; exact Eg]. }
+  match goal with |- match ?t with _ => _ end = _ -> _ => destruct t as [[[xs| |e]|] rest0] eqn:Eg; try discriminate end.
+  intros H; inversion H; subst. exists xs. split; [reflexivity|apply E; exact Eg].
+Qed.
+
+(* C11 lifted: if every component's samples pass its own bounds check, every compound sample passes the
+   compound bounds check - for any number of components, any stream, any rejection-loop fuel *)
+Definition smp_sat_law (s : space) : Prop :=
+  forall us x rest, sample acosF fuel s us = (Some (Ok x), rest) -> satisfies acosF s x = Ok true.
+
+Theorem compound_sample_then_satisfies : forall subs,
+  Forall (fun sw => smp_sat_law (fst sw)) subs -> smp_sat_law (CS subs).
+Proof.
+  intros subs HF us r rest H. destruct (sample_CS_inv subs us r rest H) as [xs [-> Hc]].
+  assert (Hs : comp_sat acosF subs xs (map (fun _ => true) subs)).
+  { clear H. induction Hc as [us|s w subs us x mid xs rest Hx _ IH]; [constructor|].
+    inversion HF as [|? ? Hs HF']; subst. cbn [map]. constructor; [exact (Hs us x mid Hx)|apply IH; exact HF']. }
+  rewrite (satisfies_CS_n acosF subs xs _ Hs). rewrite forallb_all_true. reflexivity.
+Qed.
+End Sampling.
